@@ -21,7 +21,7 @@ META = {
                  "of perform_orphan_check and of single domain goals on generated impls, both solvers",
     "level_text": "For all programs of the modelled shape the clause set chalk generates derives LocalImplAllowed exactly "
                   "when the structural rule of the property holds; builtin types and tuples of fully visible types are fully "
-                  "visible. 'Builtin types count as upstream' is proved outside a recorded class only (upstream_partial; "
+                  "visible; as run by the default solvers this holds outside the recorded size class only (orphan_partial, orphan_size_refuted). 'Builtin types count as upstream' is proved outside a recorded class only (upstream_partial; "
                   "IsUpstream on a builtin type is a known finding, upstream_refuted). The clause model is compared with the "
                   "real clause generation + solvers on every run.",
     "level_note": "The solvers are trusted to decide derivability from these (non-recursive, structurally decreasing) "
@@ -32,6 +32,7 @@ META = {
     "assumptions": [
         "type arguments only: structs (local, upstream, fundamental), scalars, str/never are not generated, tuples, impl type parameters",
         "a tuple counts as upstream whatever its components (like a non-fundamental upstream struct)",
+        "known class orphan-arg-size>max_size: impls with a trait-reference argument of more than max_size type nodes (10 for the default SLG solver, 30 for the recursive one; Coq predicate size_known_class on the input): the solver gives up and the check accepts",
         "known class isupstream-builtin: IsUpstream(t) where the answer depends on a builtin type being upstream (Coq predicate up_known_class on the input)",
     ],
     "quick_s": 40,
@@ -41,6 +42,7 @@ META = {
 IMPORTS = ["Rules.Orphan"]
 MAX_REPORTS = 8
 KNOWN_CLASS = "isupstream-builtin"
+SIZE_CLASS = "orphan-arg-size>max_size"
 
 # struct number -> (declaration, arity, upstream, fundamental)
 ADTS = [
@@ -108,7 +110,48 @@ def params_in(t, acc):
     return acc
 
 
+def gen_leaf(rng, nparams):
+    k = rng.random()
+    if k < 0.25 and nparams > 0:
+        return ("TParam", rng.randrange(nparams))
+    if k < 0.45:
+        return ("TScalar", rng.randrange(len(SCALARS)))
+    if k < 0.50:
+        return ("TTuple", [])
+    return ("TAdt", rng.choice([0, 0, 2]), [])
+
+
+def gen_nested(rng, nparams):
+    """Tuples / fundamental / upstream constructors whose components are again tuples or
+    constructors over local, upstream, builtin and parameter leaves: 7..13 type nodes, so the
+    shapes straddle the SLG size limit (10)."""
+    def inner():
+        c = rng.choice(["tuple2", "tuple3", "F2", "F1", "U2", "U1", "leaf", "leaf"])
+        if c == "tuple2":
+            return ("TTuple", [gen_leaf(rng, nparams) for _ in range(2)])
+        if c == "tuple3":
+            return ("TTuple", [gen_leaf(rng, nparams) for _ in range(3)])
+        if c == "leaf":
+            return gen_leaf(rng, nparams)
+        a = {"F2": 5, "F1": 4, "U2": 7, "U1": 3}[c]
+        return ("TAdt", a, [gen_leaf(rng, nparams) for _ in range(ADTS[a][1])])
+    c = rng.choice(["tuple3", "tuple3", "tuple2", "F2", "U2"])
+    if c == "tuple3":
+        return ("TTuple", [inner() for _ in range(3)])
+    if c == "tuple2":
+        return ("TTuple", [inner() for _ in range(2)])
+    a = {"F2": 5, "U2": 7}[c]
+    return ("TAdt", a, [inner(), inner()])
+
+
 def gen_impl(rng):
+    if rng.random() < 0.22:
+        # one nested argument among up to three
+        k = rng.choice([0, 1, 1, 2])
+        nparams = rng.choice([0, 1, 1, 2])
+        args = [gen_ty(rng, rng.choice([0, 1]), nparams) for _ in range(k + 1)]
+        args[rng.randrange(k + 1)] = gen_nested(rng, nparams)
+        return rng.random() < 0.9, args
     upstream = rng.random() < 0.85
     k = rng.choice([0, 1, 1, 2, 2])
     nparams = rng.choice([0, 1, 1, 2])
@@ -132,6 +175,17 @@ def model_input(upstream, args):
     return ("mkO", bool(upstream), ADT_DECLS, args)
 
 
+BIG_UP = ("TAdt", 7, [("TAdt", 7, [("TAdt", 3, [("TAdt", 2, [])]), ("TAdt", 3, [("TAdt", 2, [])])]),
+                      ("TAdt", 7, [("TAdt", 3, [("TAdt", 2, [])]), ("TAdt", 3, [("TAdt", 2, [])])])])
+
+
+def chain_u1(n):
+    t = ("TAdt", 2, [])
+    for _ in range(n):
+        t = ("TAdt", 3, [t])
+    return t
+
+
 FIXED = [  # hand-written shapes: the F6 witnesses and the classic orphan cases
     (True, [("TScalar", 0), ("TAdt", 0, [])]),                                   # impl Rem1<L0> for u32
     (True, [("TTuple", [("TScalar", 0), ("TScalar", 0)]), ("TAdt", 0, [])]),     # impl Rem1<L0> for (u32, u32)
@@ -145,6 +199,13 @@ FIXED = [  # hand-written shapes: the F6 witnesses and the classic orphan cases
     (True, [("TTuple", [("TAdt", 0, []), ("TScalar", 1)])]),                      # impl Rem0 for (L0, bool): rejected
     (True, [("TTuple", [("TScalar", 0), ("TParam", 0)]), ("TAdt", 0, [])]),       # parameter inside a tuple in front
     (True, [("TAdt", 7, [("TScalar", 0), ("TTuple", [("TScalar", 1), ("TAdt", 2, [])])]), ("TScalar", 2), ("TAdt", 1, [("TParam", 0)])]),
+    (True, [BIG_UP]),                                                             # 11 nodes, all upstream: SLG accepts (size class)
+    (True, [("TParam", 0), BIG_UP]),
+    (True, [BIG_UP, ("TAdt", 0, [])]),                                            # rule allows (BIG_UP fully visible, L0 local)
+    (True, [("TTuple", [("TAdt", 7, [("TParam", 0), ("TAdt", 2, [])]), ("TTuple", [("TScalar", 0), ("TAdt", 2, []), ("TAdt", 0, [])]), ("TAdt", 5, [("TScalar", 2), ("TParam", 0)])])]),
+    (True, [chain_u1(31)]),                                                       # 32 nodes: the recursive solver gives up too
+    (False, [chain_u1(31)]),
+    (True, [chain_u1(29), ("TAdt", 0, [])]),                                      # 30 nodes: still decided by both... SLG gives up
     (False, [("TParam", 0)]),                                                     # impl<T> Loc0 for T
     (False, [("TScalar", 3), ("TParam", 0)]),
 ]
@@ -227,18 +288,38 @@ def evaluate(ctx, impls, goals, tag="main", emit=True, count=True):
     if pairs_model:
         bad_rule = set(core.coq_mismatches(ctx.work, tag + "_rule", IMPORTS, fn="orphan_rule_data", eqb="Bool.eqb",
                                            in_ty="oinput", out_ty="bool", pairs=pairs_rule))
-        bad_model = set(core.coq_mismatches(ctx.work, tag + "_model", IMPORTS, fn="orphan_check_data", eqb="Bool.eqb",
-                                            in_ty="oinput", out_ty="bool", pairs=pairs_model))
+        # the model of the check as each default solver runs it (size limit 10 / 30), and the recorded
+        # size class as a Coq predicate on the input ("mismatch with false" = member)
+        bad_model, in_class = set(), set()
+        for sname, fn, cls in (("slg", "orphan_check_slg_data", "size_class_slg_data"),
+                               ("recursive", "orphan_check_rec_data", "size_class_rec_data")):
+            sel = [i for i, w in enumerate(where) if w[2] == sname]
+            if not sel:
+                continue
+            bm = core.coq_mismatches(ctx.work, tag + "_model_" + sname, IMPORTS, fn=fn, eqb="Bool.eqb",
+                                     in_ty="oinput", out_ty="bool", pairs=[pairs_model[i] for i in sel])
+            bad_model |= set(sel[j] for j in bm)
+            ic = core.coq_mismatches(ctx.work, tag + "_class_" + sname, IMPORTS, fn=cls, eqb="Bool.eqb",
+                                     in_ty="oinput", out_ty="bool", pairs=[(pairs_model[i][0], False) for i in sel])
+            in_class |= set(sel[j] for j in ic)
+        cov["impl_runs_in_size_class"] = cov.get("impl_runs_in_size_class", 0) + len(in_class)
+        ctx.cov["size_class_share"] = round(len(in_class) / max(1, len(pairs_model)), 3)
         for idx in sorted(bad_rule | bad_model):
             single, text, sname, v = where[idx]
+            if idx in bad_rule and idx in in_class and idx not in bad_model:
+                f = ctx.match_known(None, SIZE_CLASS)
+                if f is not None:
+                    cov["size_class_hits"] = cov.get("size_class_hits", 0) + 1
+                    ctx.known_finding(f, "e.g. %s => %s (%s)" % (text, v, sname))
+                    continue
             if idx in bad_rule:
                 # the property itself fails on the implementation's output
                 report({"kind": "orphan check disagrees with the orphan rule", "program": single, "impl": text, "solver": sname,
                         "real": v, "rule": "rejected" if v == "Allowed" else "allowed",
-                        "model_agrees_with_real": idx not in bad_model})
+                        "model_agrees_with_real": idx not in bad_model, "in_size_class": idx in in_class})
             else:
                 report({"kind": "model and implementation disagree", "program": single, "impl": text, "solver": sname, "real": v,
-                        "broken": "correspondence orphan_check_data = perform_orphan_check (Rules/Orphan.v)"}, no_input=True)
+                        "broken": "correspondence orphan_check_{slg,rec}_data = perform_orphan_check (Rules/Orphan.v)"}, no_input=True)
 
     # --- single goals -------------------------------------------------------------------------
     perg = 25
@@ -299,7 +380,7 @@ def evaluate(ctx, impls, goals, tag="main", emit=True, count=True):
     return violations
 
 
-THEOREMS = ["orphan_spec", "orphan_check_spec", "fully_visible_spec", "local_spec", "upstream_partial", "upstream_refuted", "orphan_refuted"]
+THEOREMS = ["orphan_spec", "orphan_check_spec", "orphan_partial", "orphan_size_refuted", "fully_visible_spec", "local_spec", "upstream_partial", "upstream_refuted", "orphan_refuted"]
 
 
 def run(ctx):
